@@ -411,6 +411,15 @@ func runC10(c *Ctx) {
 				}
 				if faulted {
 					rb := cs.rebuild(orig, false, bufR)
+					if p := orig.cpu.Interrupt; p != nil && orig.plan != nil && (p == orig.plan.reqNMI || p == orig.plan.reqINT) {
+						// The request pending at recovery is the device's own reused object (raised
+						// during the unwound Step).  The device goes on assigning that same object, so
+						// the rebuilt machine must stand in the same relation to it as the original:
+						// hand it the object, not a private copy (a copy made the monitor compare two
+						// different hosts - one whose device re-raises the pending object itself, one
+						// whose device raises a different object - thorough seed 4, DESIGN §22).
+						rb.cpu.Interrupt = p
+					}
 					for s := 0; s < 30; s++ {
 						ho := orig.stepDigest(0)
 						hr := rb.stepDigest(0)
